@@ -315,19 +315,23 @@ fn big_fastq(rng: &Rng) -> Vec<u8> {
     v
 }
 
+/// readers opened by path: tiny, empty and ordinary files, default or explicit capacity
+fn path_scn(rng: &Rng, fmt: Fmt, max_recs: usize, max_noise: usize) -> ReadScn {
+    let (input, _) = any_input(rng, fmt, max_recs, max_noise);
+    let input = if rng.chance(1, 4) { input[..input.len().min(rng.range(0, 3))].to_vec() } else { input };
+    let mut cfg = Cfg::plain(if rng.chance(1, 2) { 65536 } else { rng.range(3, 64) });
+    cfg.policy = gen_permissive_policy(rng, input.len());
+    let n = model::build(fmt, &input).items.len();
+    ReadScn { fmt, input, cfgs: vec![cfg], ops: ops_next_to_end(n), mon: Monitors::default(), profile: crate::drive::PATH_PROFILE.into() }
+}
+
 pub fn gen_read_scn(id: &str, rng: &Rng, tier: Tier) -> ReadScn {
     let (max_recs, max_noise) = sizes(tier);
     match id {
         "C01" | "C02" => {
             let fmt = if id == "C01" { Fmt::Fasta } else { Fmt::Fastq };
             if rng.chance(1, 1500) {
-                // readers opened by path: tiny, empty and ordinary files, default or explicit capacity
-                let (input, _) = any_input(rng, fmt, max_recs, max_noise);
-                let input = if rng.chance(1, 4) { input[..input.len().min(rng.range(0, 3))].to_vec() } else { input };
-                let mut cfg = Cfg::plain(if rng.chance(1, 2) { 65536 } else { rng.range(3, 64) });
-                cfg.policy = gen_permissive_policy(rng, input.len());
-                let n = model::build(fmt, &input).items.len();
-                return ReadScn { fmt, input, cfgs: vec![cfg], ops: ops_next_to_end(n), mon: Monitors::default(), profile: crate::drive::PATH_PROFILE.into() };
+                return path_scn(rng, fmt, max_recs, max_noise);
             }
             if rng.chance(1, 4000) {
                 // interrupt storm / short reads into a large buffer
@@ -457,6 +461,9 @@ pub fn gen_read_scn(id: &str, rng: &Rng, tier: Tier) -> ReadScn {
         }
         "C06" => {
             let fmt = if rng.chance(1, 2) { Fmt::Fasta } else { Fmt::Fastq };
+            if rng.chance(1, 1000) {
+                return path_scn(rng, fmt, max_recs, max_noise);
+            }
             let (input, class) = any_input(rng, fmt, max_recs, max_noise);
             let mut cfg = gen_cfg(rng, &input, true);
             let profile = rng.below(4);
